@@ -431,6 +431,13 @@ def fixed_runs():
         # priority 3 pushes against priority 1
         goals.append({"path": True, "fn": "ny" if first[0] == "y" else "y", "prio": 3, "order": 1, "weight": 1, "nominal": 1})
         out.append({"k": "run", "times": [0, 1, 2], "E": 1, "p": [0], "variant": "multi", "aliases": [["y", "-ny"]], "options": {}, "goals": goals})
+    # (e) two goals of one priority on one function key (a lower and an upper target), a later priority pulling
+    # against the one listed first
+    for first, later in (("tmin", "y"), ("tmax", "ny")):
+        a = {"path": True, "fn": "y", "prio": 1, "k": 1, "order": 2, "weight": 1, "nominal": 1, "fk": "shared_y", "tmin": 1.0}
+        b = {"path": True, "fn": "y", "prio": 1, "k": 1, "order": 2, "weight": 1, "nominal": 1, "fk": "shared_y", "tmax": 1.5}
+        out.append({"k": "run", "times": [0, 1, 2], "E": 1, "p": [0], "variant": "multi", "options": {},
+                    "goals": ([a, b] if first == "tmin" else [b, a]) + [{"path": True, "fn": later, "prio": 2, "order": 1, "weight": 1, "nominal": 1}]})
     # (d) a goal function that reads a time-varying constant input of the model: priority 1 tracks it, priority 2
     # pulls away; the per-step values kept for priority 1 are those of the right time stamps
     for fix in (True, False):
